@@ -28,7 +28,7 @@ def run(tier):
                       "(2) TLC model-checks the extension loop (progress, applied bits, termination) over chains of "
                       "font generations; the same loops and random ones are run on the real client with a mock patch "
                       "server and every round is validated by IFTTrace. distinct_nontrivial = cases whose selected "
-                      "group has more than one URI, plus recorded events. (4) IFT1.tla gives the interpretation of format 1 patch maps (glyph map, feature map with record ordering and range validity rules); TLC checks monotonicity / containment / never-applied on 41472 (table, definition) cases and each is replayed on intersecting_patches with one- and two-byte entry indices, glyph-keyed and table-keyed patch formats, inclusive and inverted code point sets, and with truncated entry map data (error, never a panic); IFT1Trace requires the offered entries to equal IFT1!Offered.")
+                      "group has more than one URI, plus recorded events. (4) IFT1.tla gives the interpretation of format 1 patch maps (glyph map, feature map with record ordering and range validity rules); TLC checks monotonicity / containment / never-applied on 41472 (table, definition) cases and each is replayed on intersecting_patches with one- and two-byte entry indices, glyph-keyed and table-keyed patch formats, inclusive and inverted code point sets, and with truncated entry map data (error, never a panic); IFT1Trace requires the offered entries to equal IFT1!Offered. (5) UriTemplate.tla transcribes the URI template expander (literal / percent-triplet / expression states, RFC 6570 byte classes, base32hex and base64url id encodings): every template of <= 4 (thorough 5) tokens over 14 tokens and four fixed templates x 12 ids are expanded by the client through a one-entry mapping and must equal the specification's expansion or be refused where it refuses.")
     ck.assumptions = ["format 2 mapping tables in IFT.tla, format 1 glyph / feature maps in IFT1.tla",
                       "two design-space axes for glyph keyed entries and definitions (MC_IFTEnumAx, random tables), one for invalidating entries (their intersection sizes are modelled on one axis); integer segment end points, <= 8 code point atoms, <= 3 feature tags",
                       "IFT specification text as transcribed in spec/ift/IFT.tla",
@@ -87,6 +87,15 @@ def run(tier):
         keep = os.path.join(vlib.REPLAYS, "C19-trace-format1-seed%d.ndjson" % vlib.seed())
         shutil.copy(t3, keep)
         ck.violation("IFT1Trace rejected the entries offered for a format 1 patch map: %s" % info.get("rejected", "")[:1500], {"kind": "ift1-trace", "trace": keep})
+    # (5) URI templates: UriTemplate.tla is the expander's state machine; every template of the family goes into a one-entry
+    # mapping and the URI the client offers must be the specification's expansion (or an error where it refuses the template)
+    r = vlib.run_tlc(wd, "UriTemplateMC", cfg="UriTemplateMC_%s.cfg" % tier, workers=6, timeout=1800, xmx="8g", out_name="uritemplate.out")
+    ck.add_tlc("tlc:UriTemplate", r)
+    if not r.ok:
+        ck.spec_error("UriTemplateMC", r)
+    res = vlib.run_harness("fv-ift", ["c19", "templates", "--cases", r.out, "--out", os.path.join(wd, "unused2.ndjson")], timeout=3000)
+    ck.add_harness("replay:uri-templates", res)
+    os.remove(r.out)
     return ck.finish()
 
 
